@@ -6,10 +6,9 @@ Require Import Base Syntax Front Plan gen.CounterFacts.
 Require Import spec.Spec_C09 proofs.C09Proofs proofs.C10Proofs.
 Open Scope N_scope.
 
-(* distinct struct/interface names and distinct constant names: the symbol table is built *)
+(* distinct names over structs, interfaces and constants together: the symbol table is built *)
 Theorem C10_symbols_complete_partial : forall files,
-  rule_uniq_types files = true -> rule_uniq_consts files = true ->
-  exists st, gather_files st_empty files = Ok st.
+  rule_uniq_toplevel files = true -> exists st, gather_files st_empty files = Ok st.
 Proof. exact gather_complete. Qed.
 Print Assumptions C10_symbols_complete_partial.
 
